@@ -142,7 +142,7 @@ def check_9535():
 
 def main():
     errs = check_9535()
-    for name in ("rfc6901", "rfc6902", "relptr", "npath", "typing9535"):
+    for name in ("rfc6901", "rfc6902", "relptr", "npath", "typing9535", "parse9535"):
         try:
             mod = __import__("vf.ref." + name, fromlist=["selftest"])
         except ImportError:
